@@ -146,4 +146,57 @@ def checkTarget (g : Graph) (t : Nat) : Except Err Unit :=
 def run (g : Graph) (req : List Nat) : Except Err (List Nat) :=
   targetSequence g req
 
+/-! ### histories: several builds (and edits) on ONE `Project` object
+
+`Project`/`TaskRunner` keep no state between calls besides the targets and
+their dependency sets: `state` and `done` are locals of `target_sequence`, the
+runner has only a logger.  So a `Project` object is modelled by its `Graph`,
+`add_target` / `add_dependency` change it, `run` / `check_target` read it. -/
+
+inductive Op
+  | addTarget (t : Nat) (ds : List Nat)     -- Project.add_target(Target t with dependencies ds, sorted)
+  | addDependency (t d : Nat)               -- project.targets[t].add_dependency(d)
+  | run (req : List Nat)                    -- TaskRunner.run(project, req)   (same runner object every time)
+  | checkTarget (t : Nat)                   -- project.check_target(t)
+  deriving Repr
+
+inductive Out
+  | done                                    -- returned None
+  | duplicate                               -- TaskError("Duplicate target …")
+  | ran (r : Except Err (List Nat))
+  | checked (r : Except Err Unit)
+
+/-- `set.add` on a set that is iterated in sorted order -/
+def insertSorted (d : Nat) : List Nat → List Nat
+  | [] => [d]
+  | x :: xs => if d < x then d :: x :: xs else if d = x then x :: xs else x :: insertSorted d xs
+
+def addDep (g : Graph) (t d : Nat) : Graph :=
+  g.map (fun kv => if kv.1 = t then (kv.1, insertSorted d kv.2) else kv)
+
+/-- one call on the project object: new project state and what the caller observes -/
+def step (g : Graph) : Op → Graph × Out
+  | .addTarget t ds =>
+    match g.lookup t with
+    | some _ => (g, .duplicate)
+    | none => (g ++ [(t, ds)], .done)
+  | .addDependency t d => (addDep g t d, .done)
+  | .run req => (g, .ran (run g req))
+  | .checkTarget t => (g, .checked (checkTarget g t))
+
+/-- the observations of a whole history of calls on one project object -/
+def history (g : Graph) : List Op → List Out
+  | [] => []
+  | op :: ops => (step g op).2 :: history (step g op).1 ops
+
+/-- the project after a history -/
+def projectAfter (g : Graph) : List Op → Graph
+  | [] => g
+  | op :: ops => projectAfter (step g op).1 ops
+
+def Op.isEdit : Op → Bool
+  | .addTarget _ _ => true
+  | .addDependency _ _ => true
+  | _ => false
+
 end Model.Tasks
